@@ -21,6 +21,11 @@ use crate::error::HandlingError;
 use crate::{CoapOption, CoapRequest, MessageClass, Packet, ResponseType};
 pub use block_value::BlockValue;
 
+/// Longest token a request can carry.  The follow-up requests of a Block2
+/// transfer may use longer tokens than the first one; the block size is chosen
+/// so that their replies, which echo the token, still fit the message size.
+const MAXIMUM_TOKEN_LENGTH: usize = 8;
+
 /// The maximum amount adding a block1 & block2 option to the message could add
 /// to the total size.
 const BLOCK_OPTIONS_MAX_LENGTH: usize = 12;
@@ -341,7 +346,8 @@ impl<Endpoint: Ord + Clone> BlockHandler<Endpoint> {
                         state.last_request_block2.as_ref(),
                         Self::compute_message_size_hack(
                             &mut response.message,
-                        )?,
+                        )? + MAXIMUM_TOKEN_LENGTH
+                            .saturating_sub(response.message.get_token().len()),
                         response.message.payload.len(),
                         self.config.max_total_message_size,
                     )?
